@@ -28,7 +28,9 @@ REGISTRY = dict(
           "each (index, env) pair that sample() can draw returns observation, action, reward, next observation of one add() call and one env column, that add being among the "
           "last `capacity` ones; done = ended and not (timeout handling and truncated); size() = min(adds, capacity); every still-stored transition is drawable; the memory-optimised "
           "variant never returns the slot at the write cursor and returns the stored successor when observations chain. Tie: cursor/size/capacity/index-map/done-mask statements are "
-          "regenerated from buffers.py on every run + exhaustive sample-table correspondence on ReplayBuffer/DictReplayBuffer."),
+          "regenerated from buffers.py on every run + exhaustive sample-table correspondence on ReplayBuffer/DictReplayBuffer. "
+          "Also: with a VecNormalize the sample is normalize_* of the stored raw values; reset() empties; RolloutBuffer/DictRolloutBuffer cursor, reset and get() protocol "
+          "(add raises iff full, get raises iff not full, arrays flattened exactly once per fill for any number of passes)."),
     note=("Trusted: Coq 8.16.1 kernel (vm_compute, no native_compute), translate/py2coq.py + specs/replay.py, harness/c03.py, Python/numpy/torch/gymnasium. "
           "Not verified: numpy fancy-indexing gather, to_torch, dtype casts (covered by the correspondence on 7 observation and 6 action kinds only). "
           "Known finding F3: optimize_memory_usage=True returns the next episode's first observation as next_obs of an episode-ending transition (Refuted/C03_memopt_done_next.v). "
@@ -565,6 +567,149 @@ def run_cases(chk, cases, name="C03"):
     return impls, results
 
 
+# ================================================================ RolloutBuffer / DictRolloutBuffer protocol
+RHEADER = """From Coq Require Import List ZArith Bool.
+From SB3V Require Import Model.Minibatch Model.Rollout.
+Import ListNotations.
+"""
+
+
+def gen_rollout_case(rng, i):
+    T, n = rng.choice([1, 2, 2, 3, 4, 5]), rng.choice([1, 2, 3])
+    ops = []
+    for _ in range(rng.randint(2, 22)):
+        x = rng.random()
+        if x < 0.62:
+            ops.append(["add"])
+        elif x < 0.9:
+            ops.append(["get", rng.choice([None, 1, 2, 3, T * n, T * n + 2])])
+        else:
+            ops.append(["reset"])
+    return {"id": i, "dict": rng.random() < 0.4, "T": T, "n": n, "ops": ops}
+
+
+def run_rollout(case):
+    import numpy as np
+    import torch as th
+    from gymnasium import spaces
+
+    from stable_baselines3.common.buffers import DictRolloutBuffer, RolloutBuffer
+
+    th.set_num_threads(1)
+    T, n = case["T"], case["n"]
+    box = lambda: spaces.Box(-1e6, 1e6, (3,), dtype=np.float32)  # noqa: E731
+    act = spaces.Box(-1e6, 1e6, (2,), dtype=np.float32)
+    if case["dict"]:
+        sp = spaces.Dict({"a": box(), "b": spaces.Box(-1e6, 1e6, (1, 2), dtype=np.float32)})
+        buf = DictRolloutBuffer(T, sp, act, device="cpu", n_envs=n)
+    else:
+        sp = box()
+        buf = RolloutBuffer(T, sp, act, device="cpu", n_envs=n)
+    out, g = [], 0
+    for op in case["ops"]:
+        rec = {"raised": None}
+        try:
+            if op[0] == "add":
+                g += 1
+                tags = np.array([g * 10 + e for e in range(n)], dtype=np.float32)
+                obs = ({"a": np.repeat(tags[:, None], 3, 1), "b": np.repeat(tags[:, None], 2, 1).reshape(n, 1, 2)} if case["dict"] else np.repeat(tags[:, None], 3, 1))
+                buf.add(obs, np.stack([tags + 0.5, -tags], 1), tags + 0.25, np.zeros(n, dtype=np.float32), th.tensor(tags + 0.125), th.tensor(-tags - 0.125))
+                rec["added"] = [int(t) for t in tags]
+            elif op[0] == "reset":
+                buf.reset()
+            else:
+                cells = []
+                for mb in buf.get(op[1]):
+                    o = mb.observations
+                    oa = (o["a"] if case["dict"] else o).numpy()
+                    ob = o["b"].numpy().reshape(len(oa), -1) if case["dict"] else oa
+                    for j in range(len(oa)):
+                        vals = set(float(v) for v in oa[j]) | set(float(v) for v in ob[j])
+                        t = oa[j][0]
+                        ok = (len(vals) == 1 and mb.actions[j].tolist() == [float(t) + 0.5, -float(t)] and float(mb.old_values[j]) == float(t) + 0.125
+                              and float(mb.old_log_prob[j]) == -float(t) - 0.125)
+                        cells.append([int(t), bool(ok)])
+                rec["pass"] = cells
+        except (AssertionError, IndexError, ValueError) as e:
+            rec["raised"] = type(e).__name__
+        arr = buf.observations["a"] if case["dict"] else buf.observations
+        rec.update(pos=int(buf.pos), full=bool(buf.full), ready=bool(buf.generator_ready),
+                   flat=[int(v) for v in np.asarray(arr).reshape(-1, 3)[:, 0]] if buf.generator_ready else None)
+        out.append(rec)
+    return out
+
+
+def rollout_expr(case):
+    n, g, ops = case["n"], 0, []
+    for op in case["ops"]:
+        if op[0] == "add":
+            g += 1
+            ops.append("RAdd " + coq_list([g * 10 + e for e in range(n)], coq_Z))
+        else:
+            ops.append("RReset" if op[0] == "reset" else "RGet")
+    # the model's add counter must follow the implementation's: a raising add still consumed a tag number above, as in run_rollout
+    return f"robserve (rcreate {case['T']}%nat {case['n']}%nat) {coq_list(ops)}"
+
+
+def check_rollout(case, impl, mv):
+    """(oracle problems, model disagreements)"""
+    orc, mod = [], []
+    T, n = case["T"], case["n"]
+    stored = []            # tags of the rows added since the last reset (oracle's own account)
+    for j, (op, rec, m) in enumerate(zip(case["ops"], impl, mv)):
+        merr, mpos, mfull, mready, mflat = m
+        mflat_l = None if mflat is None else list(mflat[1] if isinstance(mflat, tuple) else mflat)
+        if (bool(merr), mpos, bool(mfull), bool(mready), mflat_l) != (rec["raised"] is not None, rec["pos"], rec["full"], rec["ready"], rec["flat"]):
+            mod.append(("rollout-state", f"op #{j} {op}: impl (raised,pos,full,ready,flat)={(rec['raised'], rec['pos'], rec['full'], rec['ready'], rec['flat'])} model {(merr, mpos, mfull, mready, mflat_l)}"))
+        if op[0] == "add":
+            if len(stored) < T:
+                if rec["raised"]:
+                    orc.append(("oracle-rollout-add-raises", f"op #{j}: add() raised {rec['raised']} with {len(stored)} of {T} rows stored"))
+                else:
+                    stored.append(rec["added"])
+            elif not rec["raised"]:
+                orc.append(("oracle-rollout-add-beyond-capacity", f"op #{j}: add() accepted row {len(stored) + 1} of a buffer of {T}"))
+        elif op[0] == "reset":
+            stored = []
+            if (rec["pos"], rec["full"]) != (0, False):
+                orc.append(("oracle-rollout-reset", f"op #{j}: after reset() pos={rec['pos']} full={rec['full']}"))
+        else:
+            if len(stored) < T:
+                if not rec["raised"]:
+                    orc.append(("oracle-rollout-get-before-full", f"op #{j}: get() ran with {len(stored)} of {T} rows stored"))
+            elif rec["raised"]:
+                orc.append(("oracle-rollout-get-raises", f"op #{j}: get() raised {rec['raised']} on a full buffer"))
+            else:
+                want = sorted(t for row in stored for t in row)
+                got = sorted(c[0] for c in rec["pass"])
+                if got != want:
+                    orc.append(("oracle-rollout-pass-not-exactly-once", f"op #{j}: pass yields cells {got[:12]}, stored {want[:12]}"))
+                elif not all(c[1] for c in rec["pass"]):
+                    orc.append(("oracle-rollout-fields-misaligned", f"op #{j}: a minibatch element mixes fields of different (step, env) cells"))
+        if rec["pos"] != len(stored) or rec["full"] != (len(stored) == T):
+            orc.append(("oracle-rollout-cursor", f"op #{j}: pos={rec['pos']} full={rec['full']} with {len(stored)} of {T} rows stored"))
+    return orc, mod
+
+
+def rollout_campaign(chk, n_cases):
+    cases = [gen_rollout_case(chk.rng, i) for i in range(n_cases)]
+    cases.insert(0, {"id": -1, "dict": False, "T": 3, "n": 2, "ops": [["add"], ["get", None], ["add"], ["add"], ["add"], ["get", 4], ["get", None], ["get", 1], ["reset"], ["get", None], ["add"], ["add"], ["add"], ["get", 2], ["get", 2]]})
+    impls = [run_rollout(c) for c in cases]
+    vals = common.coq_eval_many("C03_roll", RHEADER, [rollout_expr(c) for c in cases], shard=150, procs=4)
+    new, passes = 0, 0
+    for c, im, mv in zip(cases, impls, vals):
+        orc, mod = check_rollout(c, im, mv)
+        passes += sum(1 for r in im if "pass" in r)
+        if orc and new < 2:
+            chk.violation(orc[0][0], "; ".join(m for _, m in orc[:3]), {"rollout_case": c, "problems": orc[:8], "model_disagreements": mod[:4]}, found_input=True)
+            new += 1
+        elif mod and new < 2:
+            chk.violation("model-correspondence-" + mod[0][0], "; ".join(m for _, m in mod[:3]),
+                          {"rollout_case": c, "problems": mod[:8], "correspondence": "harness/c03.py run_rollout vs Model.Rollout.robserve"}, found_input=False)
+            new += 1
+    return len(cases), passes
+
+
 def nontrivial(case, impl):
     if impl["refused"] or impl.get("crash"):
         return False
@@ -647,8 +792,10 @@ def main():
                 new += report(chk, c, orc, mod, im)
         if new >= 3:
             break
-    chk.coverage["evaluations"] = len(cases)
-    chk.coverage["traces_validated_against_impl"] = hist["observation_points"]
+    n_roll, roll_passes = rollout_campaign(chk, 300 if chk.tier == "quick" else 3000)
+    hist["rollout_op_lists"], hist["rollout_get_passes"] = n_roll, roll_passes
+    chk.coverage["evaluations"] = len(cases) + n_roll
+    chk.coverage["traces_validated_against_impl"] = hist["observation_points"] + roll_passes
     chk.coverage["distinct_nontrivial"] = len(distinct)
     chk.coverage["rule"] = ("op lists of 1-61 add/reset/observe calls on ReplayBuffer and DictReplayBuffer, capacity 1-12, n_envs 1-4 (buffer_size not divisible by n_envs included), "
                             "6 array + 2 Dict observation kinds, 6 action kinds, optimize_memory_usage x handle_timeout_termination (refused combinations included), with and without VecNormalize; "
